@@ -190,6 +190,8 @@ func (c *twistPoint) Mul(a *twistPoint, scalar *big.Int) {
 func (c *twistPoint) MakeAffine() {
 	// TODO: do we need to change it to constant-time implementation?
 	if c.z.IsOne() {
+		// t caches z², Neg leaves it zero ("not computed"): an affine point needs t = 1
+		c.t.SetOne()
 		return
 	} else if c.z.IsZero() {
 		c.x.SetZero()
